@@ -240,3 +240,51 @@ func VerifC08_AcrossJail() {
 	_ = stakeAfterFirst
 	zz.Reach("C08.across-jail")
 }
+
+// VerifC07_DowntimeSlash: the downtime punishment burns exactly min(trunc(p * 10^6 * f_downtime), stake) for the power p
+// REPORTED by the vote (larger or smaller than the validator's current power), from stake, pool and supply alike.
+func VerifC07_DowntimeSlash() {
+	e := VNewEnv(2)
+	vSetWindowParams(e, 1, sdk.Dec{Int: big.NewInt(1000000000000000000)}) // window 1, every block must be signed
+	e.Fund(e.Addrs[1], sdk.NewInt(50000000))
+	e.Stake(1, sdk.NewInt(20000000))
+	stake := VSymInt("stake0", 1000000, 1<<50)
+	e.Fund(e.Addrs[0], stake)
+	e.Stake(0, stake)
+	frac := vFraction("downtime_fraction")
+	p := e.K.GetParams(e.Ctx)
+	p.SlashFractionDowntime = frac
+	e.K.SetParams(e.Ctx, p)
+	e.K.SetValidatorSigningInfo(e.Ctx, e.Addrs[0], types.ValidatorSigningInfo{Address: e.Addrs[0], StartHeight: 0, JailedUntil: time.Unix(0, 0)})
+	e.Ctx = e.Ctx.WithBlockHeight(50)
+	power := zz.Int64("reported_power", 0, 1<<40)
+	pre := e.snap()
+	e.K.handleValidatorSignature(e.Ctx, []byte(e.Addrs[0]), power, false)
+	post := e.snap()
+	v, found := e.Val(0)
+	zz.Assert("C07.downtime.jailed", found && v.Jailed)
+	burned := new(big.Int).Sub(pre.supply.BigInt(), post.supply.BigInt())
+	min := sdk.NewInt(e.K.MinimumStake(e.Ctx))
+	if post.status[0] == sdk.Unstaked {
+		// fell below the minimum: force-unstaked, the remainder burned as well
+		zz.Assert("C07.downtime.below-minimum-burns-whole-stake", burned.Cmp(pre.stake[0].BigInt()) == 0 && post.stake[0].IsZero())
+		rem := new(big.Int).Sub(pre.stake[0].BigInt(), vExactBurnAmount(power, frac, pre.stake[0].BigInt()))
+		zz.Assert("C07.downtime.force-unstake-only-below-minimum", rem.Cmp(min.BigInt()) < 0)
+	} else {
+		zz.Assert("C07.downtime.exact-amount-for-reported-power", vExactBurnOK(power, frac, pre.stake[0].BigInt(), burned))
+		zz.Assert("C07.downtime.stake-reduced-by-burn", new(big.Int).Sub(pre.stake[0].BigInt(), post.stake[0].BigInt()).Cmp(burned) == 0 && post.stake[0].GTE(min))
+	}
+	zz.Assert("C07.downtime.pool-and-supply-move-together", pre.pool.Sub(post.pool).BigInt().Cmp(burned) == 0 && post.bal[0].Equal(pre.bal[0]) && post.bal[1].Equal(pre.bal[1]) && post.stake[1].Equal(pre.stake[1]))
+	e.invariants("C07.downtime")
+	zz.Reach("C07.downtime.end")
+}
+
+// vExactBurnAmount: min(trunc(p*10^6*F/10^18), stake) with plain integers.
+func vExactBurnAmount(power int64, frac sdk.Dec, stake *big.Int) *big.Int {
+	prod := new(big.Int).Mul(new(big.Int).Mul(big.NewInt(power), big.NewInt(1000000)), frac.Int)
+	a := new(big.Int).Quo(prod, new(big.Int).Exp(big.NewInt(10), big.NewInt(18), nil))
+	if a.Cmp(stake) > 0 {
+		return new(big.Int).Set(stake)
+	}
+	return a
+}
